@@ -349,4 +349,99 @@ theorem parseText_renderToks (ts : List Token) (h : ListOK ts) (hm : ∀ t ∈ t
   unfold parseText
   rw [stripIE_of_no_marker _ (renderToks_no_marker_of ts h hm)]
 
+/-! ### a conditional comment token -/
+
+/-- a comment whose body starts with ws* `[` ws* `if` renders to an explicit opener and the rest of the body -/
+theorem comment_cond_split (c : Str) (h : condStart c = true) :
+    ∃ op body, IsIEOpener op ∧ renderTok (.comment c) = op ++ body ++ arrow ∧ (∀ x ∈ body, x ∈ c) := by
+  unfold condStart at h
+  cases hm : matchItems ieCondPat c with
+  | none => rw [hm] at h; simp at h
+  | some mr =>
+    obtain ⟨m, r⟩ := mr
+    obtain ⟨hM, hc⟩ := matchItems_sound _ _ _ _ hm
+    unfold ieCondPat at hM
+    cases hM with
+    | star _ _ w1 m1 hw1 hM =>
+    cases hM with
+    | one _ _ c1 m2 hc1 hM =>
+    cases hM with
+    | star _ _ w2 m3 hw2 hM =>
+    cases hM with
+    | one _ _ c2 m4 hc2 hM =>
+    cases hM with
+    | one _ _ c3 m5 hc3 hM =>
+    cases hM
+    simp at hc1 hc2 hc3
+    subst hc1 hc2 hc3
+    refine ⟨"<!--".toList ++ w1 ++ '[' :: w2 ++ "if".toList, r, ⟨w1, w2, hw1, hw2, rfl⟩, ?_, ?_⟩
+    · rw [hc]; simp [renderTok, arrow]
+    · intro x hx; rw [hc]; exact List.mem_append_right _ hx
+
+/-- **a conditional comment token is dropped from the text**: in front of and behind it renderings without
+    the marker, its body on one line, no further `-->` on the rest of that line -/
+theorem stripIE_comment_token (ts1 ts2 : List Token) (c : Str) (hc : condStart c = true) (hnl : '\n' ∉ c)
+    (h1 : hasIEMarker (renderToks ts1) = false) (h2 : hasIEMarker (renderToks ts2) = false)
+    (hline : hasArrow ((renderToks ts2).takeWhile (· ≠ '\n')) = false) :
+    stripIE (renderToks (ts1 ++ .comment c :: ts2)) = addHtmlIfMissing (renderToks (ts1 ++ ts2)) := by
+  obtain ⟨op, body, hop, hr, hb⟩ := comment_cond_split c hc
+  have hbody : '\n' ∉ body := fun hn => hnl (hb _ hn)
+  rw [renderToks_append, renderToks_append, renderToks, hr, ← List.append_assoc]
+  unfold stripIE
+  rw [ieFindAll_single _ op body _ hop hbody h1 h2 hline]
+  simp only [List.isEmpty_cons, Bool.false_eq_true, if_false, List.foldl_cons, List.foldl_nil]
+  rw [removeAll_single _ op body _ hop h1 h2]
+
+/-! ### size: stripping removes text and adds at most `<html>` -/
+
+theorem addStartTagStr_length (s tag : Str) : (addStartTagStr s tag).length = s.length + tag.length := by
+  unfold addStartTagStr
+  cases h : doctypePrefix s with
+  | none => simp; omega
+  | some pr =>
+    obtain ⟨p, rest⟩ := pr
+    obtain ⟨_, _, _, _, _, _, _, _, hs⟩ := split_of_doctypePrefix s p rest h
+    rw [hs]; simp; omega
+
+theorem removeAux_length_le (m : Str) : ∀ (s : Str) (k : Nat), (removeAux m k s).length ≤ s.length := by
+  intro s
+  induction s with
+  | nil => intro k; cases k <;> simp [removeAux]
+  | cons c cs ih =>
+    intro k
+    cases k with
+    | succ k => have := ih k; simp only [removeAux, List.length_cons]; omega
+    | zero =>
+      rw [removeAux_zero_cons]
+      split
+      · have := ih (m.length - 1); simp only [List.length_cons]; omega
+      · have := ih 0; simp only [List.length_cons]; omega
+
+theorem removeAll_length_le (m s : Str) : (removeAll m s).length ≤ s.length := by
+  unfold removeAll
+  split
+  · exact Nat.le_refl _
+  · exact removeAux_length_le m s 0
+
+theorem foldl_removeAll_length_le (ms : List Str) : ∀ s : Str,
+    (ms.foldl (fun acc m => removeAll m acc) s).length ≤ s.length := by
+  induction ms with
+  | nil => intro s; exact Nat.le_refl _
+  | cons m ms ih =>
+    intro s
+    exact Nat.le_trans (ih (removeAll m s)) (removeAll_length_le m s)
+
+theorem stripIE_length (s : Str) : (stripIE s).length ≤ s.length + 6 := by
+  unfold stripIE
+  simp only
+  split
+  · omega
+  · unfold addHtmlIfMissing
+    have := foldl_removeAll_length_le (ieFindAll s) s
+    split
+    · rw [addStartTagStr_length]
+      have : htmlStartTag.length = 6 := rfl
+      omega
+    · omega
+
 end AHP
